@@ -2,6 +2,7 @@ package sim
 
 import (
 	"bytes"
+	"strings"
 	"encoding/hex"
 	"fmt"
 	"math/big"
@@ -147,11 +148,18 @@ func (o *C14) AfterEnd(w *World) {
 			continue
 		}
 		w.St.Check("C14:applied-is-truth")
-		ta, err := mhub2types.PackEvent(truth)
+		if w.Tainted {
+			return
+		}
+		ta, err := mhub2types.PackEvent(canonEvent(truth))
 		if err != nil {
 			continue
 		}
-		if !bytes.Equal(ta.Value, a.Rec.Rec.Event.Value) || ta.TypeUrl != a.Rec.Rec.Event.TypeUrl {
+		got, err2 := mhub2types.PackEvent(canonEvent(a.Event))
+		if err2 != nil {
+			continue
+		}
+		if !bytes.Equal(ta.Value, got.Value) || ta.TypeUrl != got.TypeUrl {
 			w.Fail("C14", "applied-is-truth", eventTypeName(truth), fmt.Sprintf("%s nonce %d: the event that took effect is not the one the external chain emitted (a differing claim was tallied together with the honest votes): applied %s, true %s",
 				a.Chain, a.Nonce, a.Event.String(), truth.String()))
 			return
@@ -334,4 +342,21 @@ func parse20(s string) [20]byte {
 	}
 	copy(a[20-len(b):], b)
 	return a
+}
+
+// canonEvent: member lists are sets (the hub stores them sorted by power, whatever order was reported).
+func canonEvent(ev mhub2types.ExternalEvent) mhub2types.ExternalEvent {
+	s, ok := ev.(*mhub2types.SignerSetTxExecutedEvent)
+	if !ok {
+		return ev
+	}
+	c := *s
+	c.Members = nil
+	for _, m := range s.Members {
+		mm := *m
+		mm.ExternalAddress = strings.ToLower(mm.ExternalAddress)
+		c.Members = append(c.Members, &mm)
+	}
+	sort.SliceStable(c.Members, func(i, j int) bool { return c.Members[i].ExternalAddress < c.Members[j].ExternalAddress })
+	return &c
 }
